@@ -46,7 +46,7 @@ def run(c):
     quick = c.tier == "quick"
     B.build([("tsan", "texel"), ("tsan", "texelutil"), ("tsan", "h_tt"), ("rel", "h_pg")])
     core.ensure_nets(["material_1", "random-small_1"])
-    nsess = int((48 if quick else 2000) * c.scale)
+    nsess = int((48 if quick else 500) * c.scale)
     races = {}
     scripts = set()
     ngo = 0
@@ -63,13 +63,13 @@ def run(c):
     for key, (raw, script) in races.items():
         c.violation("tsan-uci-session", "data-race", key, detail="script: %s\n%s" % (script, raw))
     # texelutil proofgame filter with worker pools
-    fens = subprocess.run([B.exe("rel", "h_pg"), "genfens", str(c.seed), str(24 if quick else 200)], stdout=subprocess.PIPE, text=True).stdout
+    fens = subprocess.run([B.exe("rel", "h_pg"), "genfens", str(c.seed), str(24 if quick else 60)], stdout=subprocess.PIPE, text=True).stdout
     fens = "\n".join(l[4:].split(" | ")[0] for l in fens.splitlines() if l.startswith("FEN ")) + "\n"
     if fens.count("\n") < 10:
         raise core.HarnessError("position generator produced no FEN list")
     nfil = 0
     ndamaged = 0
-    for j in ([4, 16] if quick else [2, 3, 4, 8, 12, 16] * 6):
+    for j in ([4, 16] if quick else [2, 3, 4, 8, 12, 16]):
         for mode in (["-f"], ["-f", "-o", os.path.join(core.TMP, "c09_pg_%d" % os.getpid())]):
             if mode != ["-f"] and quick and j != 4:
                 continue
